@@ -6,12 +6,13 @@ EXTENDS KMesh
 CONSTANTS NMAX, Names, SymSet
 VARIABLES grp, n, sym, pc, pos, w, out
 vars == <<grp, n, sym, pc, pos, w, out>>
-G == GroupOf(grp)
 AllNames == GroupNames
+GT == TLCEval([nm \in Names |-> GroupOf(nm)])       \* the groups of this model, generated once
+G == GT[grp]
 
 Init == /\ grp \in Names /\ n \in (1..NMAX) \X (1..NMAX) \X (1..NMAX) /\ sym \in SymSet
         /\ pos = 0 /\ out = <<>>
-        /\ IF Compatible(n, GroupOf(grp))
+        /\ IF Compatible(n, GT[grp])
            THEN pc = "create" /\ w = [k \in {} |-> 0]
            ELSE pc = "rejected" /\ w = [k \in {} |-> 0]
 
